@@ -345,6 +345,7 @@ type c18Stats struct {
 	IsoOK        int            `json:"shapes_iso_ok"`
 	DisjointOK   int            `json:"shapes_disjoint_ok"`
 	Visible      int            `json:"cases_with_visible_mutation"`
+	Recopies     int            `json:"recopies_judged"`  // second calls on a mutated original and copies of copies, judged like first copies
 	Nontrivial   int            `json:"nontrivial_cases"` // executions whose plan performed at least one write on the copy
 	FieldsFilled map[string]int `json:"observable_leaves_per_root"`
 }
@@ -407,7 +408,11 @@ func c18PlansFor(idx int, o c18Opts) [][]c18Step {
 }
 
 func firstField(flatPath string) string {
-	return strings.Trim(strings.SplitN(flatPath+".", ".", 3)[1], "[]{}#")
+	f := strings.SplitN(flatPath+".", ".", 3)[1]
+	if i := strings.IndexAny(f, "[{#"); i >= 0 {
+		f = f[:i]
+	}
+	return f
 }
 
 func c18RunShape(idx int, s c18Shape, t reflect.Type, o c18Opts, st *c18Stats, mu *sync.Mutex, traceQuota *int) c18Out {
@@ -438,6 +443,7 @@ func c18RunShape(idx int, s c18Shape, t reflect.Type, o c18Opts, st *c18Stats, m
 
 	plans := c18PlansFor(idx, o)
 	small := false // heap small enough for HeapTrace.tla (decided on the first instance)
+	recopiedAfterO := false
 	for pi, plan := range plans {
 		orig, f := c18New(t, s)
 		if f.err != nil {
@@ -592,6 +598,62 @@ func c18RunShape(idx int, s c18Shape, t reflect.Type, o c18Opts, st *c18Stats, m
 			}
 		}
 		mw.mut = ""
+		// ---- state that survives between calls: copy the (possibly mutated) original AGAIN and copy the copy;
+		// both must again be faithful and share nothing with what they were taken from (nor the copy of the copy
+		// with the original). Done once per shape: after the first plan with a step through the original.
+		throughO := false
+		for _, stp := range plan {
+			throughO = throughO || stp.A == "o"
+		}
+		if !recopiedAfterO && (throughO || pi == len(plans)-1) {
+			recopiedAfterO = true
+			again := func(what string, from, other reflect.Value) {
+				c, err := c18DeepCopy(from)
+				if err != nil {
+					add(fmt.Sprintf("C18/%s.DeepCopy/panic/%s", s.Root, what), J{"shape": shapeJ, "plan": plan, "problem": err.Error()})
+					return
+				}
+				a2, err := c18Analyse(from, c)
+				if err != nil {
+					out.harness = fmt.Sprintf("extract (%s): %s: %v", what, s.key(), err)
+					return
+				}
+				for _, d := range a2.diffs {
+					at := attribute(from, d.path, d.class)
+					add(fmt.Sprintf("C18/%s.DeepCopy/%s/%s", at.typ, d.class, at.field),
+						J{"shape": shapeJ, "plan": plan, "seen_on": what, "path": pathString(d.path), "original": d.a, "copy": d.b})
+				}
+				for _, sh := range a2.shared {
+					if sh.origPath == nil {
+						continue
+					}
+					at := attribute(from, sh.origPath, "Shared")
+					add(fmt.Sprintf("C18/%s.DeepCopy/Shared/%s", at.typ, at.field),
+						J{"shape": shapeJ, "plan": plan, "seen_on": what, "path": pathString(sh.origPath)})
+				}
+				if other.IsValid() {
+					a3, err := c18Analyse(other, c)
+					if err == nil {
+						for _, sh := range a3.shared {
+							if sh.origPath != nil {
+								// same attribution as for a first copy (sharing is usually inherited through the copy)
+								at := attribute(other, sh.origPath, "Shared")
+								add(fmt.Sprintf("C18/%s.DeepCopy/Shared/%s", at.typ, at.field),
+									J{"shape": shapeJ, "plan": plan, "seen_on": "copy of the copy reaches the original", "path_in_original": pathString(sh.origPath)})
+							}
+						}
+					}
+				}
+				mu.Lock()
+				st.Recopies++
+				mu.Unlock()
+			}
+			again("second-call-after-mutations", orig, reflect.Value{})
+			again("copy-of-the-copy", cp, orig)
+			if out.harness != "" {
+				return out
+			}
+		}
 		mu.Lock()
 		st.Cases++
 		for op := range opsWithSites {
@@ -663,6 +725,7 @@ func c18Run(args []string) int {
 	traceCells := fs.Int("trace-cells", 150, "only heaps with at most this many cells are traced")
 	par := fs.Int("par", 16, "parallel workers")
 	prof := fs.String("cpuprofile", "", "write a CPU profile (diagnostics)")
+	progressOut := fs.String("progress", "", "append start/done events per shape (to attribute a fatal crash to the shapes in flight)")
 	_ = fs.Parse(args)
 	if *prof != "" {
 		pf, _ := os.Create(*prof)
@@ -728,7 +791,18 @@ func c18Run(args []string) int {
 	}
 	var mu, omu sync.Mutex
 	sigs := map[string]*sigAgg{}
-	harness := ""
+	var harnessErrs []string
+	var pf *os.File
+	if *progressOut != "" {
+		pf, _ = os.Create(*progressOut)
+		defer pf.Close()
+	}
+	progress := func(ev string, idx int, s c18Shape) { // omu held; unbuffered so that a fatal crash leaves it complete
+		if pf != nil {
+			b, _ := json.Marshal(J{"ev": ev, "idx": idx, "shape": s})
+			pf.Write(append(b, '\n'))
+		}
+	}
 	traced := 0
 	var samples []any
 	type job struct {
@@ -742,11 +816,15 @@ func c18Run(args []string) int {
 		go func() {
 			defer wg.Done()
 			for jb := range jobs {
+				omu.Lock()
+				progress("start", jb.idx, jb.s)
+				omu.Unlock()
 				out := c18RunShape(jb.idx, jb.s, roots[jb.s.Root], opts, st, &mu, &quota)
 				omu.Lock()
-				if out.harness != "" && harness == "" {
-					harness = out.harness
+				if out.harness != "" {
+					harnessErrs = append(harnessErrs, out.harness)
 				}
+				progress("done", jb.idx, jb.s)
 				for _, f := range out.findings {
 					a := sigs[f.Sig]
 					if a == nil {
@@ -788,16 +866,15 @@ func c18Run(args []string) int {
 	}
 	close(jobs)
 	wg.Wait()
-	if harness != "" {
-		fmt.Fprintln(os.Stderr, "harness error:", harness)
-		return 2
+	if len(harnessErrs) > 5 {
+		harnessErrs = harnessErrs[:5]
 	}
 	rootNames := make([]string, 0, len(roots))
 	for n := range roots {
 		rootNames = append(rootNames, n)
 	}
 	sort.Strings(rootNames)
-	sum := J{"stats": st, "signatures": sigs, "traced": traced, "plans": len(plans.Core) + len(plans.Rotate), "roots": rootNames, "samples": samples}
+	sum := J{"stats": st, "signatures": sigs, "traced": traced, "plans": len(plans.Core) + len(plans.Rotate), "roots": rootNames, "samples": samples, "harness_errors": harnessErrs}
 	b, _ := json.Marshal(sum)
 	os.Stdout.Write(b)
 	os.Stdout.WriteString("\n")
